@@ -19,7 +19,8 @@
 // with several keys outside section legacy-adapter / subtle-public-key (key selection is C05's); plaintexts > 1000 bytes.
 //
 // Sections legacy-adapter (legacy.go: the factories' adapters around RAW primitives of made-up key types, every
-// output prefix type incl. LEGACY, multi-key keysets) and subtle-public-key (subtlepub.go) document their own domains.
+// output prefix type incl. LEGACY, multi-key keysets), subtle-public-key (subtlepub.go) and tink-generated-keys (genkeys.go:
+// key pairs drawn by tink's own generation hooks) document their own domains.
 package main
 
 import (
@@ -420,7 +421,7 @@ func exercise(x *h.X, s *scheme, id uint32) {
 
 func main() {
 	h.Main("C06", "exploration",
-		"product of (HPKE KEM x KDF x AEAD | ECIES curve x hash x point format x DEM x salt) x variant x id x construction path; per case 7 plaintext lengths x 4 context infos: round trip, nil==empty info, tink->reference and reference->tink decryption (stdlib crypto/hpke, RFC 9180 reference, ECIES reference), ciphertext length; mutation catalogue (every bit of prefix / encapsulated key / payload, every cut point, extensions, foreign prefixes, splices, replaced encapsulations incl. invalid points, context-info edits, other private key) must be rejected. Section legacy-adapter: made-up key types whose key managers return RAW primitives (RFC 9180 reference / tink raw HPKE) behind hybrid.NewHybridEncrypt/Decrypt's adapters: prefix type (TINK, CRUNCHY, LEGACY, RAW) x id x keyset layout (single key; key under test first / middle / last among legacy RAW, legacy prefixed, tink TINK and tink RAW keys; primary = it or another) x plaintext length 0..70 x 4 context infos: ciphertext = prefix || raw that the reference opens, round trip, reference->factory, prefix/body/context mutation catalogue, keyset without the key. Section subtle-public-key: SerializePrimaryPublicKey -> KeysetHandleFromSerializedPublicKey round trip against the original private handle, the primary's key object and both references. Seams: PointEncode/PointDecode on k*G (k=1..4096) per curve and format vs reference; ephemeral keys with short coordinates / short shared secrets in both directions; HPKE context seal/open at extreme sequence numbers vs the RFC reference. A case is non-trivial when primitives were built and exercised; distinct = distinct choice vectors.",
+		"product of (HPKE KEM x KDF x AEAD | ECIES curve x hash x point format x DEM x salt) x variant x id x construction path; per case 7 plaintext lengths x 4 context infos: round trip, nil==empty info, tink->reference and reference->tink decryption (stdlib crypto/hpke, RFC 9180 reference, ECIES reference), ciphertext length; mutation catalogue (every bit of prefix / encapsulated key / payload, every cut point, extensions, foreign prefixes, splices, replaced encapsulations incl. invalid points, context-info edits, other private key) must be rejected. Section legacy-adapter: made-up key types whose key managers return RAW primitives (RFC 9180 reference / tink raw HPKE) behind hybrid.NewHybridEncrypt/Decrypt's adapters: prefix type (TINK, CRUNCHY, LEGACY, RAW) x id x keyset layout (single key; key under test first / middle / last among legacy RAW, legacy prefixed, tink TINK and tink RAW keys; primary = it or another) x plaintext length 0..70 x 4 context infos: ciphertext = prefix || raw that the reference opens, round trip, reference->factory, prefix/body/context mutation catalogue, keyset without the key. Section subtle-public-key: SerializePrimaryPublicKey -> KeysetHandleFromSerializedPublicKey round trip against the original private handle, the primary's key object and both references. Section tink-generated-keys: keys DRAWN BY TINK (keygenregistry createPrivateKey hooks of hybrid/hpke and hybrid/ecies; legacy key managers' NewKeyData / NewKey) for HPKE KEM x KDF/AEAD x variant, ECIES curve x point format x hash/DEM x variant and every template of hybrid_key_templates.go through Manager.AddNewKeyFromParameters / keyset.NewHandle / Manager.Add / registry.NewKeyData / registry.NewKey x 2 entropy seeds, plus a seed search for generated NIST scalars with a leading zero byte: public key in the private key object and in Public() == independent derivation from the generated private key bytes, generated parameters == requested, tink<->reference ciphertexts with the generated private key bytes and the requested suite, context-info binding. Seams: PointEncode/PointDecode on k*G (k=1..4096) per curve and format vs reference; ephemeral keys with short coordinates / short shared secrets in both directions; HPKE context seal/open at extreme sequence numbers vs the RFC reference. A case is non-trivial when primitives were built and exercised; distinct = distinct choice vectors.",
 		[]h.Section{
 			{Name: "hpke", Body: hpkeSection, Bound: -1},
 			{Name: "hpke-seq", Body: hpkeSeqSection, Bound: -1},
@@ -428,6 +429,7 @@ func main() {
 			{Name: "hpke-serialized-public-key", Body: hpkeSerializedPubSection, Bound: -1},
 			{Name: "subtle-public-key", Body: subtlePublicKeySection, Bound: -1},
 			{Name: "legacy-adapter", Body: legacySection, Bound: -1},
+			{Name: "tink-generated-keys", Body: genKeysSection, Bound: -1},
 			{Name: "ecies", Body: eciesSection, Bound: -1},
 			{Name: "ecies-short-coordinates", Body: eciesShortSection, Bound: -1},
 			{Name: "ecies-points", Body: eciesPointSection, Bound: -1},
